@@ -403,16 +403,18 @@ pub fn strftime(ts: time::OffsetDateTime, fmt: &str) -> Result<String, DateForma
                 let nanos = ts.nanosecond();
                 let digits = padding.unwrap_or(if fmt_char == 'L' { 3 } else { 9 });
 
+                // The leading `digits` digits of the nine-digit fraction; digits beyond
+                // nanosecond precision are zeros on the right
+                let shown = digits.min(9);
                 w!(
                     output,
-                    "{:0<width$}",
-                    if digits <= 9 {
-                        nanos / 10u32.pow(9 - digits as u32)
-                    } else {
-                        nanos
-                    },
-                    width = digits
+                    "{:0>width$}",
+                    nanos / 10u32.pow(9 - shown as u32),
+                    width = shown
                 );
+                for _ in shown..digits {
+                    output.push('0');
+                }
 
                 continue;
             }
